@@ -1,4 +1,5 @@
 import Resgate.Proofs.GwPure
+import Resgate.Proofs.QIdx
 
 /-
 C13 — Query resources: atomic query-event handling (the lock).
@@ -27,5 +28,32 @@ theorem resumes_fifo (e : Entry) (st : Nat) (it : CItem) (rest : List (Nat × CI
     (hl : e.locks = none) (hq : e.queue = (st, it) :: rest) :
     mbNext e = .normal it { e with queue := rest } :=
   Gw.mbNext_fifo e st it rest hl hq
+
+/-! ### Aliases share one cached resource
+
+`Gw/QIdx.lean` is the alias index of a cache entry (`base / queries / links`) as pure functions;
+`getResourceSubscription`, `processGetResponse` and `unregister` of the gateway model are built from
+them (`Entry.idx / withIdx`). -/
+
+/-- After a get response named the normalised query `nq` for the raw query `raw`, both resolve to
+    the same cached resource `t` — and so does every raw query linked to `nq` earlier, since other
+    queries resolve as before. -/
+theorem aliases_share_one_resource (x : Gw.QIdx) (raw nq : String) (t : Nat) (hne : nq ≠ raw)
+    (h : x.lookup nq = some t) :
+    (x.link raw t).lookup raw = some t ∧ (x.link raw t).lookup nq = some t :=
+  Gw.aliases_share x raw nq t hne h
+
+theorem other_queries_unaffected (x : Gw.QIdx) (raw q : String) (t : Nat) (hne : q ≠ raw) :
+    (x.link raw t).lookup q = x.lookup q :=
+  Gw.lookup_link_other x raw q t hne
+
+/-- A query that resolves to nothing gets its own resource, which it then resolves to. -/
+theorem new_query_registered (x : Gw.QIdx) (q : String) (rs : Nat) (hnone : x.lookup q = none) :
+    (x.register q rs).lookup q = some rs :=
+  Gw.lookup_register x q rs hnone
+
+-- non-vacuity: "q=a" and "q=b" both normalise to "q=n1"
+example : let x := ((({} : Gw.QIdx).register "q=a" 1).link "q=a" 2 |>.register "q=n1" 2 |>.link "q=b" 2)
+    x.lookup "q=a" = some 2 ∧ x.lookup "q=b" = some 2 ∧ x.lookup "q=n1" = some 2 := by decide
 
 end Resgate.C13
